@@ -339,3 +339,164 @@ Proof.
   cbv zeta. split; [|vm_compute; repeat split; discriminate].
   intros t Ht. destruct t as [|[|[|[|t]]]]; try lia; vm_compute; reflexivity.
 Qed.
+
+(* ================= C03: bounded response under FIFO ================= *)
+(* the callbacks run in n iterations of run_head, with the state each one starts from *)
+Fixpoint heads (n : nat) (s : st) : list (st * handle) :=
+  match n with
+  | 0 => []
+  | S m => match ready s with [] => [] | h :: _ => (s, h) :: heads m (run_head s) end
+  end.
+
+(* ---------------- what a callback can do to a task t blocked on future f that it does not resume ---------------- *)
+Section Bystander.
+  Variables (t : tid) (f : fid).
+
+  Record byst (a b : st) : Prop := {
+    by_core : tk_core (tasks b t) = tk_core (tasks a t);
+    by_fw : f_waiter (futs b f) = f_waiter (futs a f);
+    by_keep : In (HWake t f) (ready a) -> In (HWake t f) (ready b);
+    by_done : f_st (futs a f) <> FPend -> f_st (futs b f) = f_st (futs a f);
+    by_pend : f_st (futs a f) = FPend -> f_waiter (futs a f) = Some t -> k_waiter (tasks a t) = Some f ->
+              k_must (tasks a t) = false ->
+              (f_st (futs b f) = FPend /\ k_must (tasks b t) = false) \/
+              (f_st (futs b f) <> FPend /\ In (HWake t f) (ready b))
+  }.
+
+  Lemma byst_refl a : byst a a.
+  Proof. constructor; auto. Qed.
+
+  Lemma byst_trans a b c : byst a b -> byst b c -> byst a c.
+  Proof.
+    intros H1 H2. constructor.
+    - now rewrite (by_core _ _ H2), (by_core _ _ H1).
+    - now rewrite (by_fw _ _ H2), (by_fw _ _ H1).
+    - intros H. apply H2, H1, H.
+    - intros H. rewrite (by_done _ _ H2); [now apply H1|]. now rewrite (by_done _ _ H1).
+    - intros Hp Hw Hk Hm. destruct (by_pend _ _ H1 Hp Hw Hk Hm) as [[P M]|[P I]].
+      + apply (by_pend _ _ H2 P); [now rewrite (by_fw _ _ H1)|now rewrite (tcore_waiter _ _ (by_core _ _ H1))|exact M].
+      + right. split; [now rewrite (by_done _ _ H2 P)|now apply H2].
+  Qed.
+
+  (* the step does not touch t's record nor f at all *)
+  Lemma byst_exact a b :
+    tasks b t = tasks a t -> futs b f = futs a f -> (In (HWake t f) (ready a) -> In (HWake t f) (ready b)) ->
+    byst a b.
+  Proof.
+    intros E1 E2 E3. constructor; rewrite ?E1, ?E2; auto.
+  Qed.
+
+  Lemma byst_fut_complete a g v : v <> FPend -> byst a (fut_complete a g v).
+  Proof.
+    intros Hv. unfold fut_complete. destruct (f_st (futs a g)) eqn:Eg; try apply byst_refl.
+    destruct (Nat.eq_dec g f) as [->|Hne].
+    - set (s1 := upd_fut a f (fun x => mkFut v (f_waiter x))).
+      set (b := match f_waiter (futs a f) with Some w => call_soon s1 (HWake w f) | None => s1 end).
+      assert (Et : tasks b = tasks a) by (unfold b; destruct (f_waiter (futs a f)); reflexivity).
+      assert (Ef : futs b f = mkFut v (f_waiter (futs a f))).
+      { unfold b, s1. destruct (f_waiter (futs a f)) eqn:Ew; cbn; unfold upd; rewrite Nat.eqb_refl; now rewrite Ew. }
+      constructor.
+      + now rewrite Et.
+      + now rewrite Ef.
+      + intros H. unfold b. destruct (f_waiter (futs a f)); cbn; [apply in_or_app; now left|exact H].
+      + intros H. congruence.
+      + intros _ Hw _ _. right. rewrite Ef. split; [exact Hv|]. unfold b. rewrite Hw. cbn.
+        apply in_or_app. right. now left.
+    - apply byst_exact.
+      + destruct (f_waiter (futs a g)); reflexivity.
+      + destruct (f_waiter (futs a g)); cbn; unfold upd; destruct (Nat.eqb_spec f g); congruence.
+      + intros H. destruct (f_waiter (futs a g)); cbn; [apply in_or_app; now left|exact H].
+  Qed.
+
+  Lemma byst_deliver_top a c : wait_link a -> byst a (deliver_top a c).
+  Proof.
+    intros WL. pose proof (kframe_deliver_top a c) as K. constructor.
+    - apply (kf_tasks _ _ K t).
+    - apply (kf_fwaiter _ _ K f).
+    - intros H. destruct (kf_ready _ _ K) as [l [E _]]. rewrite E. apply in_or_app. now left.
+    - apply (kf_fdone _ _ K f).
+    - intros Hp Hw Hk Hm. destruct (deliver_top_task a c t WL) as [[E1 E2]|R].
+      + left. rewrite E1, (E2 f Hk). now split.
+      + destruct R as [[_ [_ Hn]]|[f' [_ [Hw' [Hf Hr]]]]].
+        * rewrite (tcore_waiter _ _ (kf_tasks _ _ K t)), Hk in Hn. discriminate.
+        * rewrite (tcore_waiter _ _ (kf_tasks _ _ K t)), Hk in Hw'. inversion Hw'; subst f'.
+          right. split; [rewrite Hf; discriminate|exact Hr].
+  Qed.
+
+  Lemma byst_upd_task_other a t' g : t' <> t -> byst a (upd_task a t' g).
+  Proof.
+    intros Hne. apply byst_exact; [|reflexivity|auto]. cbn. unfold upd.
+    destruct (Nat.eqb_spec t t'); [congruence|reflexivity].
+  Qed.
+
+  Lemma byst_same_tf a b : tasks b = tasks a -> futs b = futs a ->
+    (forall h, is_timer_handle 0 h = false -> (forall tm, is_timer_handle tm h = false) -> In h (ready a) -> In h (ready b)) ->
+    byst a b.
+  Proof.
+    intros E1 E2 E3. apply byst_exact; [now rewrite E1|now rewrite E2|]. apply E3; reflexivity.
+  Qed.
+
+  Lemma byst_timer_cancel a tm : byst a (timer_cancel a tm).
+  Proof.
+    apply byst_exact; [reflexivity|reflexivity|]. intros H. cbn. apply filter_In. split; [exact H|reflexivity].
+  Qed.
+
+  Lemma byst_cancel_timeout a c : byst a (cancel_timeout a c).
+  Proof.
+    unfold cancel_timeout. destruct (s_timeout (scopes a c)); [|apply byst_refl].
+    eapply byst_trans; [apply byst_timer_cancel|]. apply byst_exact; [reflexivity|reflexivity|auto].
+  Qed.
+
+  Lemma byst_scope_cancel a c b : wait_link a -> byst a (scope_cancel a c b).
+  Proof.
+    intros WL. unfold scope_cancel. destruct (s_cancelled (scopes a c)); [apply byst_refl|].
+    set (s2 := upd_scope (cancel_timeout a c) c _).
+    assert (K : byst a s2) by (eapply byst_trans; [apply byst_cancel_timeout|apply byst_exact; [reflexivity|reflexivity|auto]]).
+    destruct (s_host (scopes s2 c)); [|exact K].
+    eapply byst_trans; [exact K|]. apply byst_deliver_top.
+    assert (W2 : wait_link (cancel_timeout a c)).
+    { unfold cancel_timeout. destruct (s_timeout (scopes a c)); exact WL. }
+    exact W2.
+  Qed.
+
+  (* parking another task on a fresh future *)
+  Lemma byst_suspend_other a t' g : t' <> t -> g <> f -> byst a (suspend_on a t' g).
+  Proof.
+    intros Ht Hg. unfold suspend_on.
+    set (s2 := upd_task (upd_fut a g (fun x => mkFut (f_st x) (Some t'))) t' (tk_waiter (Some g))).
+    assert (K : byst a s2).
+    { apply byst_exact; [reflexivity|reflexivity|auto].
+      - cbn. unfold upd. destruct (Nat.eqb_spec t t'); [congruence|reflexivity].
+      - cbn. unfold upd. destruct (Nat.eqb_spec f g); [congruence|reflexivity]. }
+    assert (Kc : forall h, byst s2 (call_soon s2 h)).
+    { intros h. apply byst_exact; [reflexivity|reflexivity|auto]. intros H. cbn. apply in_or_app. now left. }
+    destruct (f_st (futs a g)); try (eapply byst_trans; [exact K|apply Kc]).
+    destruct (k_must (tasks a t')); [|exact K].
+    eapply byst_trans; [exact K|]. eapply byst_trans; [apply byst_fut_complete; discriminate|].
+    now apply byst_upd_task_other.
+  Qed.
+
+  Lemma byst_park_other a t' : t' <> t -> f < nfut a -> byst a (park a t').
+  Proof.
+    intros Ht Hf. unfold park, new_fut.
+    eapply byst_trans; [|now apply byst_upd_task_other].
+    eapply byst_trans; [|apply byst_suspend_other; [exact Ht|lia]].
+    apply byst_exact; [reflexivity|reflexivity|auto]. cbn. unfold upd. destruct (Nat.eqb_spec f (nfut a)); [lia|reflexivity].
+  Qed.
+
+  Lemma byst_ret_other a t' r : t' <> t -> f < nfut a -> byst a (fst (ret_to_puppet a t' r)).
+  Proof.
+    intros Ht Hf. unfold ret_to_puppet. cbn [fst].
+    set (s1 := match r with RExc e => upd_task a t' (tk_held (Some e)) | _ => a end).
+    assert (K1 : byst a s1 /\ nfut s1 = nfut a).
+    { unfold s1. destruct r; try (split; [apply byst_refl|reflexivity]). split; [now apply byst_upd_task_other|reflexivity]. }
+    destruct K1 as [K1 E1].
+    eapply byst_trans; [exact K1|]. eapply byst_trans; [apply byst_park_other; [exact Ht|now rewrite E1]|].
+    apply byst_exact; [reflexivity|reflexivity|auto].
+  Qed.
+
+  Lemma byst_incoming_other a t' fo : t' <> t -> byst a (fst (incoming a t' fo)).
+  Proof.
+    intros Ht. unfold incoming. cbn [fst]. eapply byst_trans; [now apply byst_upd_task_other|]. apply byst_exact; [reflexivity|reflexivity|auto].
+  Qed.
+End Bystander.
